@@ -146,8 +146,8 @@ class ModelMixin(ModelMixin2, ModelMixin3):
                 return 'parsed-document'
             if k == 'elem-of':
                 return f'element-of({o[1]})'
-            if k == 'arg' and len(o) == 2:
-                return f'arg.{o[1]}'
+            if k in ('arg', 'argument') and len(o) == 2:
+                return f'{k}.{o[1]}'
             if len(o) == 2 and isinstance(o[1], tuple) and isinstance(k, str) and hasattr(str, k):
                 return f'{d(o[1])}.{k}()'          # result of a str method on a described value
             return str(k)
